@@ -19,6 +19,7 @@ import OFV.Proofs.C07DCMain
 import OFV.Proofs.C07TermInfo
 import OFV.Proofs.C07BosonAdj
 import OFV.Proofs.C07BosonKey
+import OFV.Proofs.C07BosonOp
 import OFV.Proofs.C07BCH8
 import OFV.Proofs.C07BCHExp
 import OFV.Proofs.C07BCHUniv
@@ -487,6 +488,20 @@ theorem hc_boson_terms (A : List (List (Nat × Nat) × GQ)) (hk : (Dict.keys A).
     (hs : ∀ e ∈ A, e.1.Pairwise (fun a b => a.1 ≤ b.1)) (hl : ∀ e ∈ A, ∀ f ∈ e.1, f.2 ≤ 1) :
     hcBoson A = A.map (fun e => (sortF (hcTermF e.1), e.2.conj)) :=
   Proofs.C07K.hcBoson_terms A hk hs hl
+
+/-- **`hc_boson_operator_adjoint`** — the Model function the driver executes against the Spec, for ALL
+stored BosonOperators (distinct keys, ladder words sorted by mode index, arbitrary complex coefficients):
+`hermitian_conjugated(A)` is the adjoint of `A` for the Fock inner product of the polynomial
+representation, `⟨x^{e1}, A x^{e0}⟩ = ⟨A† x^{e1}, x^{e0}⟩` for all canonical exponent vectors:
+`(Σ_t c_t ⟨t⟩_{e0→e1}) · Π e1_i! = conj(Σ_{t'} c'_{t'} ⟨t'⟩_{e1→e0}) · Π e0_i!` with `(t', c')` ranging over
+the returned dictionary `hcBoson A` (`den φ A = Σ c · φ(t)`). -/
+theorem hc_boson_operator_adjoint (A : List (List (Nat × Nat) × GQ)) (hk : (Dict.keys A).Nodup)
+    (hs : ∀ e ∈ A, e.1.Pairwise (fun a b => a.1 ≤ b.1)) (hl : ∀ e ∈ A, ∀ f ∈ e.1, f.2 ≤ 1)
+    (e0 e1 : Spec.Mono) (h0 : Spec.trimZeros e0 = e0) (h1 : Spec.trimZeros e1 = e1) :
+    den (fun t => Proofs.C07A.melB t e0 e1) A * GQ.ofInt (Proofs.C06B.wfact e1 : Int) =
+      GQ.conj (den (fun t => Proofs.C07A.melB t e1 e0) (hcBoson A)) * GQ.ofInt (Proofs.C06B.wfact e0 : Int) := by
+  rw [Proofs.C07K.hcBoson_terms A hk hs hl]
+  exact Proofs.C07A.hcBoson_image_adjoint A hl e0 e1 h0 h1
 
 /-- QuadOperator branch: `q_j`, `p_j` are self-adjoint, so the involution is word reversal; the stored
 key `sorted(reversed(t))` denotes the reversed word for every `ħ` and every monomial. -/
